@@ -254,18 +254,27 @@ func (s *sched) pick(el []*task) *task {
 	r := s.r
 	switch s.policy {
 	case 1: // PCT: highest priority runs; priorities change at a few random steps
+		top := func() *task {
+			best := el[0]
+			for _, t := range el[1:] {
+				if t.prio > best.prio {
+					best = t
+				}
+			}
+			return best
+		}
 		for _, c := range s.changeAt {
 			if c == s.epoch {
-				el[r.Choose("pct-demote", len(el))].prio = -s.epoch
+				// the classic change point demotes the task that would run now (it is parked right where it
+				// stands while the others run on); sometimes demote an arbitrary one instead
+				if k := r.Choose("pct-demote", len(el)+2); k < len(el) {
+					el[k].prio = -s.epoch
+				} else {
+					top().prio = -s.epoch
+				}
 			}
 		}
-		best := el[0]
-		for _, t := range el[1:] {
-			if t.prio > best.prio {
-				best = t
-			}
-		}
-		return best
+		return top()
 	case 2: // keep running the same task, pre-empt with probability 1/4
 		for _, t := range el {
 			if t.id == s.lastIdx && r.Choose("preempt?", 4) != 0 {
@@ -388,7 +397,7 @@ func e1TaskDone(t *task) {
 func RunTasks(r *Run, names []string, fns []func(t *task), lockNames map[*sync.RWMutex]string) *sched {
 	s := &sched{r: r, back: newGate(), lockNames: lockNames, lastIdx: -1}
 	s.policy = r.Choose("sched-policy", 3)
-	s.fine = r.Choose("fine-grained", 3) == 0
+	s.fine = r.Choose("fine-grained", 2) == 0
 	if s.fine {
 		r.Probe("fine-grained-map-yields")
 	}
